@@ -111,12 +111,12 @@ def tv_defect_candidates(prop, spec, vectorized):
                     yield ids, dict(edge_mask=m, zero_default=zd, weight_from=wf, innode_delayed=ind)
 
 
-_GEN_SUFFIX = re.compile(r'^(.+?)(_v\d+|_in\d+)$')
+_GEN_SUFFIX = re.compile(r'^(.+?)(_in\d+)$')      # the <id>_v<k> half is repaired: no longer attributed
 
 
 def generated_like_names(spec):
     """declared identifiers that coincide with a name the compiler would generate for ANOTHER declared identifier
-    (<id>_v<k>, <id>_in<k>), or with the generated edge variable `weight` / `weight_*`"""
+    (<id>_in<k>), or with the generated edge variable `weight` / `weight_*`"""
     names = set()
     for o in spec.ops.values():
         names |= set(o.vars)
